@@ -35,7 +35,7 @@ def _ctx_like(t):
     return 'context::Context' in t or 'Context::DataList' in t
 
 
-def _fresh_locals(f):
+def _fresh_locals(f, fresh_params=()):
     """locals of Context/list-node type whose every definition is a fresh construction, a copy of a fresh local's
     member, or a step along the link of a fresh local"""
     fresh = set()
@@ -72,7 +72,9 @@ def _fresh_locals(f):
                     # a non-copy construction is fresh
                 elif x['k'] in ('member', 'call', 'ref'):
                     p = access_path(f, x['i'])
-                    if not (p[0].startswith('local:') and int(p[0].split(':')[1]) in (fresh | {vid})):
+                    if p[0].startswith('param:') and p[0][6:] in fresh_params:
+                        pass      # rooted in a by-value parameter that every caller fills with a fresh context
+                    elif not (p[0].startswith('local:') and int(p[0].split(':')[1]) in (fresh | {vid})):
                         ok = False
                 elif x['k'] == 'new':
                     pass
@@ -103,7 +105,26 @@ def rule_r1(ck, prog, scope_prefixes=('opentelemetry::context::', 'opentelemetry
         if not touches:
             continue
         cnt += 1
-        fresh = _fresh_locals(f)
+        # a by-value Context parameter of a private helper is a fresh context when every call site hands it a newly constructed
+        # temporary (`Shadow(Context(values))`): the helper then completes the construction of that context
+        fresh_params = set()
+        if f.d.get('access') in ('private', 'protected'):
+            for pi, prm in enumerate(f.params):
+                if not _ctx_like(prm['t']) or prm['t'].rstrip().endswith(('&', '*')):
+                    continue
+                sites = [(cf, n) for cf in prog.funcs.values() for n in cf.nodes if n['k'] == 'call' and n.get('ck') == f.key]
+                def fresh_arg(cf, n):
+                    args = n.get('args', [])
+                    if pi >= len(args) or args[pi] is None or args[pi] < 0:
+                        return False
+                    x = strip_casts(cf, args[pi])
+                    for _ in range(3):
+                        if x['k'] == 'construct' and x.get('copymove') and len(x.get('args', [])) == 1:
+                            x = strip_casts(cf, x['args'][0])       # the move into the parameter
+                    return x['k'] == 'construct' and not x.get('copymove')
+                if sites and all(fresh_arg(cf, n) for (cf, n) in sites):
+                    fresh_params.add(prm['name'])
+        fresh = _fresh_locals(f, fresh_params)
         bad = None
 
         def rooted_ok(path):
@@ -147,6 +168,8 @@ def rule_r1(ck, prog, scope_prefixes=('opentelemetry::context::', 'opentelemetry
                 # a plain local of Context type that is only a copy target is fine when the write is to the local itself
                 ok = vid in fresh or len(tgt) == 1
             elif root.startswith('fresh:') or root.startswith('call:'):
+                ok = True
+            elif root.startswith('param:') and root[6:] in fresh_params:
                 ok = True
             if not ok:
                 bad = (n, what)
@@ -197,6 +220,14 @@ def rule_r3(ck, prog, rule='C10.R3', cls='opentelemetry::context::ThreadLocalCon
                        'no Pop on any path that returns false' if not after_pop else 'a foreign token (Detach returns false) can still pop frames')
         elif v == 1:
             ok = g.must_pass(rp, pops)
+            if not ok:
+                # frames may be removed through another mutating member of the stack (an index-based unwind helper): a different
+                # algorithm than the one the rules model - say so instead of guessing
+                other = [p for p in g.points if p.n is not None and p.n['k'] == 'call' and 'ThreadLocalContextStorage::Stack::' in strip_targs(p.n.get('c', '')) and
+                         not p.n.get('cconst') and strip_targs(p.n['c']).rsplit('::', 1)[-1] not in ('Pop', 'Push', 'Top', 'Contains')]
+                if other and g.must_pass(rp, pops + other):
+                    ck.inconclusive(rule, f, 'detach-true-pops', rp.n, 'frames are removed through Stack::%s, a helper this rule does not model' % strip_targs(other[0].n['c']).rsplit('::', 1)[-1])
+                    continue
             ck.verdict(ok, rule, f, 'detach-true-pops', rp.n, 'every path returning true pops' if ok else 'Detach can return true without restoring the previous context')
     # the unwinding loop is driven by token == Top()
     loops = [n for n in f.nodes if n['k'] in ('while', 'do', 'for')]
